@@ -12,6 +12,9 @@ CHECKS = {
  'C07': ('exploration', 'metamorphic runtime monitor in isolated worker processes: Syntax(profile) -> format -> parse -> compile -> evaluate, observation of the re-evaluated value compared with the observation of the printed value under the projection of the profile; cue eval / export --out cue / def on a sample',
    '1.5k/40k generated programs (whole value and sub-values taken out of scope) + the calibrated part of the evaluator corpus, 6 option profiles each.',
    'Programs with an error anywhere are outside the statement. The exporter helper definition _#def is not part of the observation. Three recorded findings matched by class.', 'DESIGN.md §4 C07'),
+ 'C19': ('exploration', 'Go race detector over repeated concurrent workloads in isolated -race worker processes (GORACE logs parsed and de-duplicated by stack pair) + per-call result fingerprints compared with a sequential baseline computed in other processes + re-fingerprinting of the shared value afterwards + fresh-label rounds for logic races the detector cannot see',
+   '150/3000 programs x 3-6 goroutine counts (2-16), values unevaluated or evaluated at the start, every third goroutine building the program in its own context; 16/64 fresh-label cases of 400/3000 rounds.',
+   'The race detector sees executed accesses only. Error text is part of the Validate/Err fingerprints.', 'DESIGN.md §4 C19'),
  'C20': ('exploration', 'metamorphic runtime monitor in isolated worker processes: final observation per top-level field before and after trim.Files, re-parse/re-compile of the trimmed files, second trim must be a no-op; cue trim in place on a sample',
    '4k/60k generated packages (schema packages with implied/overriding/conflicting data, C01 programs augmented with copies of their own evaluated values, 1-3 files) + the trim testdata inputs.',
    'trim refuses packages with evaluation errors, so the "same errors" clause is exercised only through fields that stay incomplete. One recorded finding (not a fixpoint with duplicate declarations).', 'DESIGN.md §4 C20'),
